@@ -1,7 +1,33 @@
 """Asyncio front-end under a virtual-time event loop (C14): the real AsyncFakeSocket, its real re-try task and
 async_timeout; time only moves when the harness says so and the loop is run to quiescence after every event."""
-import asyncio, selectors, warnings
+import asyncio, selectors, signal, warnings
 import impl as I
+
+
+class Hang(BaseException):
+    pass
+
+
+class watchdog:
+    """a callback that never returns (e.g. waits for a lock its own thread holds) must not hang the check: SIGALRM interrupts it"""
+    def __init__(self, seconds=20):
+        self.seconds = seconds
+
+    def _fire(self, signum, frame):
+        raise Hang('no progress for %d s' % self.seconds)
+
+    def __enter__(self):
+        try:
+            self.old = signal.signal(signal.SIGALRM, self._fire)
+            signal.alarm(self.seconds)
+        except ValueError:          # not in the main thread
+            self.old = None
+
+    def __exit__(self, *a):
+        if self.old is not None:
+            signal.alarm(0)
+            signal.signal(signal.SIGALRM, self.old)
+        return False
 
 warnings.filterwarnings('ignore', category=DeprecationWarning)
 from fakeredis import _aioredis2 as A2, _async as AS      # noqa: E402
@@ -50,14 +76,21 @@ class AsyncImpl(I.Impl):
         self.rnd.log = []
         crash = None
         try:
-            self.socks[c].sendall(data)
+            with watchdog():
+                self.socks[c].sendall(data)
         except BaseException as e:       # noqa
             crash = type(e).__name__
         return self.drain(), crash, list(self.clock.log), [list(p) for p in self.rnd.log]
 
+    hung = None
+
     def settle(self):
         self.clock.log = []
-        self.loop.settle()
+        try:
+            with watchdog():
+                self.loop.settle()
+        except Hang as e:
+            self.hung = 'the event loop did not come back: %s' % e
         return self.drain(), list(self.clock.log)
 
     def advance_loop(self, seconds):
@@ -68,6 +101,12 @@ class AsyncImpl(I.Impl):
 
     def shutdown(self):
         try:
+            for sk in list(self.socks.values()):
+                try:
+                    if sk._server is not None:
+                        sk.close()
+                except Exception:
+                    pass
             for t in asyncio.all_tasks(self.loop):
                 t.cancel()
             self.loop.settle(3)
